@@ -285,12 +285,14 @@ pub struct Interrupter {
     #[cfg(feature = "intr")]
     tx: Option<mpsc::Sender<InterruptSignal>>,
     pub sent: bool,
+    drop_after_send: bool,
 }
 
 impl Interrupter {
     pub fn can_send(&self) -> bool {
         #[cfg(feature = "intr")]
         {
+            let _ = self.drop_after_send;
             self.tx.is_some() && !self.sent
         }
         #[cfg(not(feature = "intr"))]
@@ -304,7 +306,11 @@ impl Interrupter {
         #[cfg(feature = "intr")]
         {
             if let Some(tx) = &self.tx {
-                return tx.try_send(InterruptSignal).is_ok();
+                let ok = tx.try_send(InterruptSignal).is_ok();
+                if self.drop_after_send {
+                    self.tx = None;
+                }
+                return ok;
             }
         }
         false
@@ -343,7 +349,7 @@ fn make_opts(cfg: &RunCfg) -> (StreamOpts<'static, 'static>, Interrupter) {
         opts = opts
             .interruptibility_state(state)
             .interrupted_next_item_include(cfg.include);
-        (opts, Interrupter { tx, sent: false })
+        (opts, Interrupter { tx, sent: false, drop_after_send: cfg.drop_sender })
     }
     #[cfg(not(feature = "intr"))]
     {
@@ -351,7 +357,7 @@ fn make_opts(cfg: &RunCfg) -> (StreamOpts<'static, 'static>, Interrupter) {
             cfg.strat == Strat::NonInterruptible,
             "interrupt strategies need the intr build"
         );
-        (opts, Interrupter { sent: false })
+        (opts, Interrupter { sent: false, drop_after_send: cfg.drop_sender })
     }
 }
 
